@@ -23,19 +23,20 @@ ASSUMPTIONS = ['the abstract equality and DEFAULT values come from my own AST (v
                'NotImplementedError raised by asn1tools is an explicit declared-unsupported (counted)']
 REPORT = ['modules', 'rejected_by_compiler', 'values', 'evaluations', 'declared_unsupported',
           'not_accepted_by_checks', 'carved_out']
-FLOORS = {'quick': {'evaluations': 20000, 'modules': 100}, 'thorough': {'evaluations': 200000, 'modules': 1000}}
+FLOORS = {'quick': {'evaluations': 20000, 'modules': 100},
+          'thorough': {'evaluations': 80000, 'modules': 400}}
 TIMEOUT = {'quick': 1500, 'thorough': 14000}
 CANONICAL = {'der', 'per', 'uper', 'oer'}
 
 
 def shards(tier):
-    return 32 if tier == 'quick' else 128
+    return 32 if tier == 'quick' else 64
 
 
 def params(tier):
     if tier == 'quick':
         return {'modules': 8, 'values': 14}
-    return {'modules': 34, 'values': 24}
+    return {'modules': 24, 'values': 21}
 
 
 def profile(tier):
